@@ -129,7 +129,7 @@ func (g *SyntheticChainGenerator) PreCertChain() ([]ct.ASN1Cert, []byte, error) 
 // in the log.
 func buildLeafTBS(precertData []byte, preIssuer *x509.Certificate) ([]byte, error) {
 	reparsed, err := x509.ParseCertificate(precertData)
-	if err != nil {
+	if x509.IsFatal(err) {
 		return nil, fmt.Errorf("failed to re-parse created precertificate: %v", err)
 	}
 	return x509.BuildPrecertTBS(reparsed.RawTBSCertificate, preIssuer)
